@@ -3,17 +3,19 @@
 seeded/DETECTION.md and records `detected_by` in every seeded/<id>/meta.json"""
 import json, os, re, sys
 V = os.path.dirname(os.path.dirname(os.path.abspath(__file__)))
-res = {}
+res, nev = {}, {}
 for path in sys.argv[1:]:
     for line in open(path):
         m = re.match(r"(C\d+-\d+) check=(C\d+) exit=(\d+) violations=(\d+)", line)
         if m:
             sid, prop, rc, nv = m.group(1), m.group(2), int(m.group(3)), int(m.group(4))
-            res.setdefault(sid, {})[prop] = rc
+            res.setdefault(sid, {})[prop] = rc          # later logs (given later on the command line) override earlier ones
+            m2 = re.search(r" violations=(\d+) outside_domain", line)
+            nev.setdefault(sid, {})[prop] = int(m2.group(1)) if m2 else 0
 rows = []
 for sid in sorted(os.listdir(os.path.join(V, "seeded"))):
     d = os.path.join(V, "seeded", sid)
-    if not os.path.isdir(d): continue
+    if not os.path.isdir(d) or not os.path.exists(os.path.join(d, "meta.json")): continue
     meta = json.load(open(os.path.join(d, "meta.json")))
     r = res.get(sid, {})
     det = sorted(p for p, rc in r.items() if rc == 1)
@@ -21,11 +23,16 @@ for sid in sorted(os.listdir(os.path.join(V, "seeded"))):
         meta["detected_by"] = det
         meta["checked_with"] = sorted(r)
         json.dump(meta, open(os.path.join(d, "meta.json"), "w"), indent=1)
-    rows.append((sid, meta["property"], meta.get("detected_by", []), meta.get("checked_with", [])))
+    rows.append((sid, meta["property"], meta.get("detected_by", []), meta.get("checked_with", []),
+                 ", ".join("%s: %d" % (p, nev.get(sid, {}).get(p, 0)) for p in meta.get("detected_by", []))))
 with open(os.path.join(V, "seeded", "DETECTION.md"), "w") as f:
-    f.write("# Seeded changes and the checks that detect them (quick tier)\n\n| seeded | property | detected by | run with |\n|---|---|---|---|\n")
-    for sid, prop, det, ck in rows:
-        f.write("| %s | %s | %s | %s |\n" % (sid, prop, ", ".join(det) or "**not detected**", ", ".join(ck)))
+    f.write("# Seeded changes and the checks that detect them (quick tier)\n\nRejected events = number of recorded events TLC rejected with a clause of that property "
+            "(a change caught by very few events of a random batch is caught by luck; see DESIGN.md 15.4).\n\n"
+            "| seeded | property | detected by | run with | rejected events |\n|---|---|---|---|---|\n")
+    for sid, prop, det, ck, ne in rows:
+        f.write("| %s | %s | %s | %s | %s |\n" % (sid, prop, ", ".join(det) or "**not detected**", ", ".join(ck), ne))
+    own = sum(1 for r in rows if r[1] in r[2])
+    f.write("\n%d of %d detected by the check of their own property.\n" % (own, len(rows)))
     n = len(rows); k = sum(1 for r in rows if r[2])
     f.write("\n%d of %d detected by at least one check.\n" % (k, n))
 print(open(os.path.join(V, "seeded", "DETECTION.md")).read()[-400:])
